@@ -230,6 +230,15 @@ fn gen_totlv_for_struct_named(
     }
 
     let krate = Ident::new(&tlvargs.rs_matter_crate, Span::call_site());
+    // The iterator encoder must open the same container type as `to_tlv`
+    let iter_datatype = format_ident!(
+        "{}",
+        if tlvargs.datatype == "list" {
+            "list"
+        } else {
+            "structure"
+        }
+    );
 
     quote! {
         impl #generics #krate::tlv::ToTLV for #struct_name #generics {
@@ -251,7 +260,7 @@ fn gen_totlv_for_struct_named(
             }
 
             fn tlv_iter(&self, tag: #krate::tlv::TLVTag) -> impl Iterator<Item = Result<#krate::tlv::TLV, #krate::error::Error>> {
-                let iter = #krate::tlv::TLV::structure(tag).into_tlv_iter();
+                let iter = #krate::tlv::TLV::#iter_datatype(tag).into_tlv_iter();
 
                 #(let iter = Iterator::chain(iter, #krate::tlv::ToTLV::tlv_iter(&self.#idents, #krate::tlv::TLVTag::Context(#tags)));)*
 
